@@ -473,6 +473,25 @@ func (g *c16) corners() {
 			g.pair(dur(a, na), dur(b, nb), cfgs, nil, []string{"mut:extreme-durations"}, true)
 		}
 	}
+	// the branches of durationsWithin at their edges: seconds exactly maxDurationSeconds apart and one more with the
+	// nanos pulling the other way as far as an int32 goes (within MaxInt64 ns / not), nanos outweighing the seconds,
+	// the int64 ends of the seconds (their difference needs all 64 bits)
+	type sn struct {
+		s int64
+		n int32
+	}
+	edges := [][2]sn{{{9223372041, math.MinInt32}, {0, math.MaxInt32}}, {{9223372042, math.MinInt32}, {0, math.MaxInt32}},
+		{{9223372041, 0}, {0, 0}}, {{9223372036, 854775807}, {0, 0}}, {{9223372036, 854775807}, {0, -1}}, {{9223372037, -145224193}, {0, 0}},
+		{{-9223372041, math.MaxInt32}, {0, math.MinInt32}}, {{-4611686021, math.MaxInt32}, {4611686021, math.MinInt32}},
+		{{1, math.MinInt32}, {0, math.MaxInt32}}, {{2, -2000000001}, {0, 0}}, {{4, math.MinInt32}, {0, math.MaxInt32}}, {{5, math.MinInt32}, {0, math.MaxInt32}},
+		{{math.MaxInt64, 0}, {math.MinInt64, 0}}, {{math.MaxInt64, math.MaxInt32}, {math.MaxInt64, math.MinInt32}}, {{math.MinInt64, 5}, {math.MinInt64, 3}},
+		{{315576000000, 0}, {315575999999, 999999999}}, {{315576000000, 0}, {-315576000000, 0}}, {{315576000000, 1}, {315576000000, 0}}}
+	for _, e := range edges {
+		cfgs := []ecfg{{vs: []vcfg{{kind: "dur", d: 0}}}, {vs: []vcfg{{kind: "dur", d: 1}}}, {vs: []vcfg{{kind: "dur", d: 2}}}, {vs: []vcfg{{kind: "dur", d: 1000000000}}},
+			{vs: []vcfg{{kind: "dur", d: 4294967295}}}, {vs: []vcfg{{kind: "dur", d: 9223372036705032704}}}, {vs: []vcfg{{kind: "dur", d: 9223372036705032705}}},
+			{vs: []vcfg{{kind: "dur", d: math.MaxInt64 - 1}}}, {vs: []vcfg{{kind: "dur", d: math.MaxInt64}}}}
+		g.pair(dur(e[0].s, e[0].n), dur(e[1].s, e[1].n), cfgs, nil, []string{"mut:extreme-durations", "mut:duration-edges"}, true)
+	}
 	small := []int64{0, 1, 2, 3, 4, 6, 8, -1, -2, -4}
 	for _, a := range small {
 		for _, b := range small {
